@@ -54,7 +54,7 @@ func c13Gen(rng *rand.Rand, conf string, idx int) any {
 		if rng.Float64() >= p {
 			continue
 		}
-		o := MOp{Kind: it.kind, Key: it.key, Val: g.val(), Act: "set"}
+		o := MOp{Kind: it.kind, Key: it.key, Val: g.valFor(it.kind), Act: "set"}
 		if removable(it.kind) && it.kind != "args" {
 			o.Act = pick(rng, []string{"set", "rm", "rmset", "rmset"})
 			if o.Act == "rmset" && it.kind != "ann" && rng.Intn(3) == 0 {
